@@ -9,6 +9,8 @@ Binding:
       the box tree; for the subset of (3) the real tree must be exactly the reference tree (types, anonymity, element);
  (B2) every real box tree is written flat to an ndjson trace that TLC validates with BoxTreeTrace.tla; each violated clause
       is a disagreement named after it.
+Variants of the element-tree materialisation: white space inside and between elements; display: none combined with float:
+footnote. Clause anonymous-flex-or-grid-item-without-text.
 """
 import json
 import os
